@@ -5,6 +5,7 @@ import (
 	"fmt"
 	"os"
 	"os/exec"
+	"regexp"
 	"strconv"
 	"strings"
 )
@@ -34,6 +35,21 @@ func callPool(r *rng, n int) []string {
 	for i, c := range genTimestamps(r, n).Cases {
 		if dc, ok := parseDecCase(c); ok && len(dc.data) < 3000 {
 			pool = append(pool, decCase([]string{"decode", "chained"}[i%2], "000", "-", "-", dc.data))
+		}
+	}
+	// streams with unknown messages and unlisted fields, decoded with the (process-wide) option values
+	// that record them: anything an option value keeps between calls shows in the lists
+	seen := map[string]bool{}
+	k := 0
+	for _, c := range genOptionSets(r, 4*n).Cases {
+		dc, ok := parseDecCase(c)
+		if !ok || dc.rspec != "-" || len(dc.data) > 3000 || seen[string(dc.data)] {
+			continue
+		}
+		seen[string(dc.data)] = true
+		pool = append(pool, decCase([]string{"decode", "chained"}[k%2], []string{"011", "111", "010", "001"}[k%4], "-", "-", dc.data))
+		if k++; k >= n {
+			break
 		}
 	}
 	for i := 0; i < n/2; i++ {
@@ -162,6 +178,10 @@ func historyDiff(a, b string) string {
 		return "file count differs"
 	}
 	for k := range fa {
+		// header, file CRC and the unknown-message / unknown-field lists
+		if sa, sb := strings.Join(sideSections.FindAllString(fa[k], -1), ""), strings.Join(sideSections.FindAllString(fb[k], -1), ""); sa != sb {
+			return fmt.Sprintf("header, CRC or unknown lists differ: %s vs %s", clipS(sa), clipS(sb))
+		}
 		pa, ma := flattenMsgs(fa[k])
 		pb, mb := flattenMsgs(fb[k])
 		if len(pa) != len(pb) {
@@ -180,6 +200,8 @@ func historyDiff(a, b string) string {
 	}
 	return ""
 }
+
+var sideSections = regexp.MustCompile(`^H[^;]*;C[^;]*|;UM\[[^\]]*\];UF\[[^\]]*\]`)
 
 // runInFreshProcess runs one case as the first call of a new process.
 func runInFreshProcess(c string) (string, bool) {
